@@ -44,7 +44,7 @@ def is_nontrivial(u0, u1, states, slots):
             return True
         if states[u] != states[u + 1]:
             return True
-        if states[u] == DATA and slots[u + 1] != slots[u] + 1:
+        if slots[u] is not None and slots[u + 1] != slots[u] + 1:
             return True
     return False
 
